@@ -1171,6 +1171,27 @@ def check_store(P, R, rec):
                 if fld["ctype"].startswith("std::map<int,"):
                     for k in keyed_on(f["body"], fld["q"]):
                         looks.append((fld["q"], k))
+            # helpers that take a user number themselves (sel_file_name, get_sel_out_file_on, get_sel_out_string_on ...): the method's
+            # own user-number parameter is what it must hand on
+            for c in T.calls(f["body"]):
+                cq = T.callee_q(c) or ""
+                if not cq.startswith("IPhreeqc::") or cq == f["q"]:
+                    continue
+                tgt = [g for g in P.fns_named(cq) if g.get("pnames")]
+                if not tgt:
+                    continue
+                for ai, (an, at) in enumerate(zip(tgt[0]["pnames"], tgt[0]["params"])):
+                    if at == "int" and an in ("n", "n_user", "nuser", "user_number") and ai < len(c[4]):
+                        inst = "%s:%s()" % (f["name"], cq.split("::")[-1])
+                        a = c[4][ai]
+                        if is_param(a, pi):
+                            R.ok("C13.keyparam", inst, "passes its parameter %s on" % pn)
+                        elif T.access_path(T.strip_casts(a)) == (("this",), [("f", CUR)]):
+                            R.violation("C13.keyparam", inst, "takes user number `%s` but calls %s with CurrentSelectedOutputUserNumber: the per-user-number default / switch of "
+                                        "another block is used (e.g. the default file name selected_<current>.<id>.out for block %s)" % (pn, cq.split("::")[-1], pn),
+                                        file=f["file"], line=c[1], function=f["q"])
+                        else:
+                            R.ok("C13.keyparam", inst, "passes `%s`" % T.text(a)[:30])
             for fq, k in looks:
                 inst = "%s:%s" % (f["name"], fq.split("::")[-1])
                 if is_param(k, pi):
